@@ -4,12 +4,13 @@ package main
 // path statistics and candidate counterexamples.
 
 import (
+	"encoding/binary"
 	"fmt"
 	"go/types"
+	"hash/fnv"
 	"os"
 	"runtime/debug"
 	"sort"
-	"strconv"
 	"strings"
 	"time"
 
@@ -63,12 +64,12 @@ type RunResult struct {
 	maxSamples   int
 	harness      *HarnessSpec
 	params       []int
-	distinctObl  map[string]bool // distinct (label, obligation term, path condition) triples decided under a symbolic path condition
+	distinctObl  map[uint64]struct{} // (hashed) distinct (label, obligation term, path condition) triples decided under a symbolic path condition
 }
 
 func newRunResult() *RunResult {
 	return &RunResult{Obl: map[string]*OblStat{}, Covers: map[string]int{}, CoverWitness: map[string]map[string]uint64{}, PathStatus: map[string]int{},
-		candSeen: map[string]int{}, Unsupported: map[string]int{}, Bounds: map[string]int{}, distinctObl: map[string]bool{}, maxSamples: 8}
+		candSeen: map[string]int{}, Unsupported: map[string]int{}, Bounds: map[string]int{}, distinctObl: map[uint64]struct{}{}, maxSamples: 8}
 }
 
 func (r *RunResult) stat(label, kind string) *OblStat {
@@ -149,7 +150,20 @@ func (r *RunResult) obligation(e *Engine, st *State, c *Term, label, kind string
 	s := r.stat(label, kind)
 	s.Checked++
 	if len(st.pc) > 0 || !c.IsConst() {
-		r.distinctObl[label+"|"+strconv.Itoa(c.id)+"|"+keyOf(st.pc)] = true
+		h := fnv.New64a()
+		h.Write([]byte(label))
+		var buf [8]byte
+		binary.LittleEndian.PutUint64(buf[:], uint64(c.id))
+		h.Write(buf[:])
+		var acc uint64 // order-independent combination of the path condition's term ids
+		for _, t := range st.pc {
+			x := uint64(t.id)*0x9E3779B97F4A7C15 + 0x632BE59BD9B4E019
+			x ^= x >> 29
+			acc += x * 0xBF58476D1CE4E5B9
+		}
+		binary.LittleEndian.PutUint64(buf[:], acc)
+		h.Write(buf[:])
+		r.distinctObl[h.Sum64()] = struct{}{}
 	}
 	if c.IsTrue() {
 		s.Trivial++
